@@ -7,12 +7,14 @@ readers, `lower()`, `convert`), `Model/BibParse.lean` (the `.bib` reader), `Mode
 `Lemmas/BibWriteSplit.lean` (`split_tex_string` as a flat scan), `Lemmas/BibWriteNames.lean` (tokens,
 names), `Lemmas/BibWritePieces.lean` (completeness of splitting), `Lemmas/BibWriteDb.lean` (the BibTeX
 writer's text against the `.bib` reader, over the printer/parser lemmas of C01),
-`Lemmas/BibWriteYaml.lean`, `Lemmas/BibWriteXml.lean`, `Lemmas/BibWriteChain.lean`.
+`Lemmas/BibWriteYaml.lean`, `Lemmas/BibWriteXml.lean`, `Lemmas/BibWriteChain.lean`,
+`Lemmas/BibWriteChainOn.lean` (the chain lemmas with the serialiser hypothesis per tree, `chainLog`).
 
 The model follows the code after the repairs proposed_fixes/C02-1 (`_format_name` / `__str__` keep
 an empty First part) and C02-2 (BibTeXML reader: role detection on the lower-cased tag).
 -/
 import PybtexModel.Lemmas.BibWriteChain
+import PybtexModel.Lemmas.BibWriteChainOn
 import PybtexModel.Lemmas.BibWriteQuant
 import PybtexModel.Lemmas.BibWriteSerial
 import PybtexModel.Lemmas.BibWriteRepr
@@ -335,28 +337,39 @@ theorem C02_bibtex_roundtrip_example :
 
 /-! ### 3. YAML and BibTeXML: pybtex's own conversion logic -/
 
-/-- **YAML.**  Given a lossless serialiser (`yaml.load (yaml.dump t) = t`), reading back what the
-YAML writer wrote yields the same entries — keys, entry types, fields in order, roles in order,
-persons through their five name-part strings — and the preamble as one string; nothing is
-reported.  Domain `WFDbTree true`: no field is called `type` (the key is taken by the entry type). -/
-theorem C02_yaml_logic (S : Serial) (hS : ∀ t, S.loadY (S.dumpY t) = some t) (d : BibData)
+/-- **YAML.**  Given a serialiser that is lossless ON THE ONE TREE the YAML writer builds for this
+database (`yaml.load (yaml.dump t) = t` for `t = _to_dict(d)`; PyYAML is not lossless on every tree,
+e.g. U+0085), reading back what the YAML writer wrote yields the same entries — keys, entry types,
+fields in order, roles in order, persons through their five name-part strings — and the preamble
+as one string; nothing is reported.  Domain `WFDbTree true`: no field is called `type` (the key is
+taken by the entry type).  The first conjunct needs no serialiser at all. -/
+theorem C02_yaml_logic (S : Serial) (d : BibData)
+    (hS : S.loadY (S.dumpY (toDictYaml d)) = some (toDictYaml d))
     (h : WFDbTree true d = true) :
     ofDictYaml (toDictYaml d) = .ok { db := canonDb d, badNames := [], repeated := [], others := 0 } ∧
     readFmt S .yaml (S.dumpY (toDictYaml d)) =
       .ok { db := canonDb d, badNames := [], repeated := [], others := 0 } ∧
     roundTrip S .yaml d = .ok (canonDb d) := by
-  refine ⟨Yaml.yaml_roundtrip d h, ?_, roundTrip_yaml S hS h⟩
-  simp only [readFmt, hS, Yaml.yaml_roundtrip d h]
+  refine ⟨Yaml.yaml_roundtrip d h, ?_, ?_⟩
+  · simp only [readFmt, hS, Yaml.yaml_roundtrip d h]
+  · simp only [roundTrip, writeFmt, readFmt, hS, Yaml.yaml_roundtrip d h]
 
-/-- **BibTeXML.**  Given a lossless serialiser of element trees, reading back what the BibTeXML
-writer wrote yields the same entries (field order, roles in any letter case, the five name parts);
-the format has no place for the preamble. -/
-theorem C02_xml_logic (S : Serial) (hS : ∀ t, S.loadX (S.dumpX t) = some t) (d : BibData)
+/-- **BibTeXML.**  Given a serialiser of element trees that is lossless ON THE ONE TREE the
+BibTeXML writer builds for this database (the XML libraries are not lossless on every tree: names
+and characters XML cannot hold), reading back what the writer wrote yields the same entries (field
+order, roles in any letter case, the five name parts), nothing reported; the format has no place
+for the preamble.  The first conjunct needs no serialiser at all. -/
+theorem C02_xml_logic (S : Serial) (d : BibData)
+    (hS : S.loadX (S.dumpX (toTreeXml d)) = some (toTreeXml d))
     (h : WFDbTree false d = true) :
     ofTreeXml (toTreeXml d) =
       .ok { db := { entries := d.entries, preamble := [] }, badNames := [], repeated := [], others := 0 } ∧
-    roundTrip S .bibtexml d = .ok { entries := d.entries, preamble := [] } :=
-  ⟨xml_roundtrip d h, roundTrip_xml S hS h⟩
+    readFmt S .bibtexml (S.dumpX (toTreeXml d)) =
+      .ok { db := { entries := d.entries, preamble := [] }, badNames := [], repeated := [], others := 0 } ∧
+    roundTrip S .bibtexml d = .ok { entries := d.entries, preamble := [] } := by
+  refine ⟨xml_roundtrip d h, ?_, ?_⟩
+  · simp only [readFmt, hS, xml_roundtrip d h]
+  · simp only [roundTrip, writeFmt, readFmt, hS, xml_roundtrip d h]
 
 theorem C02_yaml_logic_nonvacuous : WFDbTree true c02Db = true ∧ WFDbTree false c02Db = true := by
   decide +kernel
@@ -370,15 +383,17 @@ theorem C02_xml_logic_nonvacuous :
 /-! ### 4. chains of formats, lower-casing -/
 
 /-- **Chains.**  For ANY list of formats (not only up to three) such that the database lies in the
-domain of each, with lossless serialisers: writing in the first format, converting from each
-format to the next (`convert`, `preserve_case = True`) and reading the last text back ends with the
-entries it started from; the preamble comes back as one string and is lost exactly when BibTeXML
-is on the way. -/
+domain of each, with serialisers that are lossless on the trees pybtex hands them ALONG THIS CHAIN
+(`stages true fs d`: the databases written, in closed form — `LosslessOn` asks nothing about any
+other tree): writing in the first format, converting from each format to the next (`convert`,
+`preserve_case = True`) and reading the last text back ends with the entries it started from; the
+preamble comes back as one string and is lost exactly when BibTeXML is on the way.  Only the final
+database is described here; that nothing is reported on the way is `C02_chain_steps`. -/
 theorem C02_chain (S : Serial) (henc : ∀ s, Safe s = true → S.encode s = s)
-    (hY : ∀ t, S.loadY (S.dumpY t) = some t) (hX : ∀ t, S.loadX (S.dumpX t) = some t)
-    (fs : List Fmt) (d : BibData) (h : ∀ f ∈ fs, inDomain f d = true) :
+    (fs : List Fmt) (d : BibData) (h : ∀ f ∈ fs, inDomain f d = true)
+    (hL : ∀ p ∈ stages true fs d, LosslessOn S p.1 p.2) :
     chain S true fs d = .ok (chainDb fs d) := by
-  rw [chain_true ⟨henc, hY, hX⟩ fs d h, fold_canonFor]
+  rw [chain_true_on henc fs d h hL, fold_canonFor]
 
 theorem C02_chain_nonvacuous :
     (∀ f ∈ [Fmt.bibtex, Fmt.yaml, Fmt.bibtexml, Fmt.bibtex], inDomain f c02Db = true) ∧
@@ -388,13 +403,15 @@ theorem C02_chain_nonvacuous :
 
 /-- **Lower-casing.**  With `preserve_case = False` (at least one conversion, i.e. two formats) the
 chain ends with the entries of `lowerSpec d` — keys, entry types, field names and role names
-lower-cased, nothing else touched — and the same preamble as without lower-casing. -/
+lower-cased, nothing else touched — and the same preamble as without lower-casing.  The serialisers
+are asked to be lossless only on the trees written along this chain (`stages false …`: the first
+database as it is, the later ones lower-cased). -/
 theorem C02_lower (S : Serial) (henc : ∀ s, Safe s = true → S.encode s = s)
-    (hY : ∀ t, S.loadY (S.dumpY t) = some t) (hX : ∀ t, S.loadX (S.dumpX t) = some t)
-    (f1 f2 : Fmt) (fs : List Fmt) (d : BibData) (h : ∀ f ∈ f1 :: f2 :: fs, inDomain f d = true) :
+    (f1 f2 : Fmt) (fs : List Fmt) (d : BibData) (h : ∀ f ∈ f1 :: f2 :: fs, inDomain f d = true)
+    (hL : ∀ p ∈ stages false (f1 :: f2 :: fs) d, LosslessOn S p.1 p.2) :
     ∃ d', chain S false (f1 :: f2 :: fs) d = .ok d' ∧ d'.entries = (lowerSpec d).entries ∧
       d'.preamble = (chainDb (f1 :: f2 :: fs) d).preamble :=
-  chain_false ⟨henc, hY, hX⟩ f1 f2 fs d h
+  chain_false_on henc f1 f2 fs d h hL
 
 theorem C02_lower_nonvacuous :
     (∀ f ∈ [Fmt.yaml, Fmt.bibtex, Fmt.bibtexml], inDomain f c02Db = true) ∧
@@ -402,6 +419,81 @@ theorem C02_lower_nonvacuous :
       [("knuth:84".toList, "article".toList, ["title".toList, "note".toList, "year".toList],
         ["author".toList, "editor".toList]), ("k2".toList, "misc".toList, [], [])] := by
   decide +kernel
+
+/-- **Nothing is reported on the way** (pipeline level, both `preserve_case` modes).  `chainLog` is
+`chain` keeping, per step, the reader's whole result and what `lower()` reports (first conjunct: it
+computes the same database, no hypotheses).  For a database in the domain of every format of the
+chain and serialisers lossless on the trees written along it, every step is written without error
+and read back with NOTHING reported (no bad name, no repeated key, no other problem), `lower()`
+reports nothing, and the database read at each step is `canonFor` of the one written (`stages`). -/
+theorem C02_chain_steps (S : Serial) (henc : ∀ s, Safe s = true → S.encode s = s) (preserveCase : Bool)
+    (fs : List Fmt) (d : BibData) (h : ∀ f ∈ fs, inDomain f d = true)
+    (hL : ∀ p ∈ stages preserveCase fs d, LosslessOn S p.1 p.2) :
+    (chainLog S preserveCase fs d).map (·.1) = chain S preserveCase fs d ∧
+    ∃ d', chainLog S preserveCase fs d =
+        .ok (d', (stages preserveCase fs d).map fun p => (cleanRead (canonFor p.1 p.2), [])) ∧
+      chain S preserveCase fs d = .ok d' :=
+  ⟨chainLog_db S preserveCase fs d, chainLog_clean henc preserveCase fs d h hL⟩
+
+/-- a serialiser that — like PyYAML and the XML libraries — refuses every text containing U+0085
+(NEXT LINE): it is NOT lossless on every tree -/
+def c02Picky : Serial :=
+  { encode := id
+    dumpY := Ser.dumpY
+    loadY := fun s => if s.contains (Char.ofNat 0x85) then none else Ser.loadY s
+    dumpX := Ser.dumpX
+    loadX := fun s => if s.contains (Char.ofNat 0x85) then none else Ser.loadX s }
+
+/-- the text written for `d` in the format `f` contains no U+0085 -/
+def c02NoNel (f : Fmt) (d : BibData) : Bool :=
+  match f with
+  | .bibtex => true
+  | .yaml => !(Ser.dumpY (toDictYaml d)).contains (Char.ofNat 0x85)
+  | .bibtexml => !(Ser.dumpX (toTreeXml d)).contains (Char.ofNat 0x85)
+
+theorem c02Picky_on {f : Fmt} {d : BibData} (h : c02NoNel f d = true) : LosslessOn c02Picky f d := by
+  cases f with
+  | bibtex => trivial
+  | yaml =>
+    simp only [c02NoNel, Bool.not_eq_true'] at h
+    show (if (Ser.dumpY (toDictYaml d)).contains (Char.ofNat 0x85) = true then none
+      else Ser.loadY (Ser.dumpY (toDictYaml d))) = some (toDictYaml d)
+    rw [h]; simp [Ser.loadY_dumpY]
+  | bibtexml =>
+    simp only [c02NoNel, Bool.not_eq_true'] at h
+    show (if (Ser.dumpX (toTreeXml d)).contains (Char.ofNat 0x85) = true then none
+      else Ser.loadX (Ser.dumpX (toTreeXml d))) = some (toTreeXml d)
+    rw [h]; simp [Ser.loadX_dumpX]
+
+/-- the per-tree hypothesis is really weaker than "lossless on every tree": the serialiser
+`c02Picky` loses a tree (a string containing U+0085), so the ∀-tree hypothesis is FALSE of it, yet it
+is lossless on every tree written along the chains of the example — in both `preserve_case` modes —
+and `C02_chain` / `C02_lower` / `C02_chain_steps` apply to it -/
+theorem C02_chain_steps_nonvacuous :
+    c02Picky.loadY (c02Picky.dumpY (.str [Char.ofNat 0x85])) = none ∧
+    ¬ (∀ t, c02Picky.loadY (c02Picky.dumpY t) = some t) ∧
+    (∀ pc, ∀ p ∈ stages pc [.bibtex, .yaml, .bibtexml, .yaml] c02Db, LosslessOn c02Picky p.1 p.2) ∧
+    chain c02Picky true [.bibtex, .yaml, .bibtexml, .yaml] c02Db =
+      .ok (chainDb [.bibtex, .yaml, .bibtexml, .yaml] c02Db) ∧
+    (∃ d', chain c02Picky false [.bibtex, .yaml, .bibtexml, .yaml] c02Db = .ok d' ∧
+      d'.entries = (lowerSpec c02Db).entries) ∧
+    (stages false [.bibtex, .yaml, .bibtexml, .yaml] c02Db).length = 4 := by
+  have h0 : c02Picky.loadY (c02Picky.dumpY (.str [Char.ofNat 0x85])) = none := by
+    show (if (Ser.dumpY (.str [Char.ofNat 0x85])).contains (Char.ofNat 0x85) = true then none
+      else Ser.loadY (Ser.dumpY (.str [Char.ofNat 0x85]))) = none
+    rw [if_pos (by decide +kernel)]
+  have hL : ∀ pc, ∀ p ∈ stages pc [.bibtex, .yaml, .bibtexml, .yaml] c02Db, LosslessOn c02Picky p.1 p.2 := by
+    intro pc p hp
+    apply c02Picky_on
+    have hall : ∀ pc, (stages pc [.bibtex, .yaml, .bibtexml, .yaml] c02Db).all
+        (fun p => c02NoNel p.1 p.2) = true := by decide +kernel
+    exact (List.all_eq_true.1 (hall pc)) p hp
+  have hdom : ∀ f ∈ [Fmt.bibtex, Fmt.yaml, Fmt.bibtexml, Fmt.yaml], inDomain f c02Db = true := by
+    decide +kernel
+  refine ⟨h0, fun hall => ?_, hL, C02_chain c02Picky (fun _ _ => rfl) _ c02Db hdom (hL true), ?_, by decide +kernel⟩
+  · rw [hall] at h0; cases h0
+  · obtain ⟨d', a, b, _⟩ := C02_lower c02Picky (fun _ _ => rfl) .bibtex .yaml [.bibtexml, .yaml] c02Db hdom (hL false)
+    exact ⟨d', a, b⟩
 
 /-- **`lower()` changes letter case only.**  `BibliographyData.lower()` on a database with
 identifiers distinct up to case (every domain above) is `lowerSpec` and reports nothing; `lowerSpec`
@@ -473,15 +565,33 @@ counterexample below and an entry in `known_findings.json`. -/
 the quantifier's domain for the format `f` in which every role is author / editor (any letter case)
 with at least one person, which has no field called `type` when `f` is YAML, and none of `# % & _ ~`
 in a value, a written name list or the preamble when `f` is BibTeX, lies in the claimed domain and
-is read back as written. -/
+is written without error and read back with nothing reported as `canonFor f d`: the entries as
+written; the preamble LIST joined into one string (dropped for BibTeXML).  `WFDbQ` is our
+formalisation of the quantifier; what it excludes beyond the published text is listed at
+`C02_quantifier_exact`.  The serialiser is asked to be lossless on the one tree written for `d`. -/
 theorem C02_quantifier_partial (S : Serial) (henc : ∀ s, Safe s = true → S.encode s = s)
-    (hY : ∀ t, S.loadY (S.dumpY t) = some t) (hX : ∀ t, S.loadX (S.dumpX t) = some t)
-    (f : Fmt) (d : BibData) (hq : WFDbQ f d = true) (hn : noFinding f d = true) :
-    inDomain f d = true ∧ roundTrip S f d = .ok (canonFor f d) :=
-  ⟨inDomain_of_Q hq hn, roundTrip_ok ⟨henc, hY, hX⟩ (inDomain_of_Q hq hn)⟩
+    (f : Fmt) (d : BibData) (hL : LosslessOn S f d)
+    (hq : WFDbQ f d = true) (hn : noFinding f d = true) :
+    inDomain f d = true ∧ roundTrip S f d = .ok (canonFor f d) ∧
+    (∃ text, writeFmt S f d = .ok text ∧ readFmt S f text = .ok (cleanRead (canonFor f d))) ∧
+    (canonFor f d).entries = d.entries ∧
+    (canonFor f d).preamble = (if f = .bibtexml then [] else canonPreamble d) :=
+  ⟨inDomain_of_Q hq hn, roundTrip_on henc hL (inDomain_of_Q hq hn),
+    readBack_on henc hL (inDomain_of_Q hq hn), canonFor_entries f d, by cases f <;> rfl⟩
 
-/-- **The claimed domain is exactly the stated quantifier minus the four restrictions**: nothing
-else is excluded silently (for each format). -/
+/-- **The claimed domain is exactly `WFDbQ` minus the four restrictions** (for each format).
+`WFDbQ` is OUR formalisation of the stated quantifier (`Spec/BibWrite.lean`), so "nothing else is
+excluded" holds relative to `WFDbQ`, not relative to the published text.  `WFDbQ` itself excludes,
+beyond that text: a text field called author / editor; a role called `type`; a field name equal up
+to case to a role name of the same entry; identifiers containing U+0130 / U+03A3 (`lowerDomain`);
+persons outside `WFPerson` (the shape `Person(name)` yields — at most one first name, no von token
+inside Last, … — and no token ending in a backslash), also for YAML / BibTeXML where the shape is
+not needed (`C02_person_parts_roundtrip`); for BibTeX moreover: entry types, field and role names
+that are not NAMEs of the `.bib` grammar, the reserved types comment / preamble / string, keys that
+are empty, non-ASCII or contain white space, a comma or `}`, brace nesting above 100, a written
+name list that is not white-space-normalised (also inside braces), a name with a brace-level-0
+` and ` inside, a preamble whose joined text is not balanced and white-space-normalised.  It asks nothing of YAML / BibTeXML values (representability in YAML / XML is the
+per-tree hypothesis `LosslessOn` of the round-trip theorems). -/
 theorem C02_quantifier_exact (f : Fmt) (d : BibData) :
     inDomain f d = true ↔ (WFDbQ f d = true ∧ noFinding f d = true) :=
   inDomain_iff_Q f d
@@ -574,7 +684,9 @@ theorem C02_five_neg :
 
 /-- **A lossless `Serial` exists.**  `Ser.witness` (`Lemmas/BibWriteSerial.lean`: the identity
 encoder, value trees and element trees printed in a prefix code and parsed back) satisfies the three
-serialiser hypotheses of `C02_yaml_logic`, `C02_xml_logic`, `C02_chain`, `C02_lower` for EVERY tree;
+serialiser hypotheses of `C02_yaml_logic`, `C02_xml_logic`, `C02_chain`, `C02_lower` for EVERY tree
+(those theorems ask them only for the trees written: `LosslessOn`; a serialiser that is lossless on
+those but not on every tree is exhibited in `C02_chain_steps_nonvacuous`);
 instantiated with it the chain theorems hold without any hypothesis left: a chain through all three
 formats gives the example database back, and with lower-casing its lower-cased entries. -/
 theorem C02_serial_witness :
@@ -588,9 +700,10 @@ theorem C02_serial_witness :
   have h1 : ∀ s, Safe s = true → Ser.witness.encode s = s := fun _ _ => rfl
   have h2 : ∀ t, Ser.witness.loadY (Ser.witness.dumpY t) = some t := Ser.loadY_dumpY
   have h3 : ∀ t, Ser.witness.loadX (Ser.witness.dumpX t) = some t := Ser.loadX_dumpX
-  refine ⟨h1, h2, h3, C02_chain Ser.witness h1 h2 h3 _ c02Db ?_, ?_⟩
+  refine ⟨h1, h2, h3, C02_chain Ser.witness h1 _ c02Db ?_ (fun p _ => losslessOn_of_all h2 h3 p.1 p.2), ?_⟩
   · decide +kernel
-  · obtain ⟨d', a, b, _⟩ := C02_lower Ser.witness h1 h2 h3 .yaml .bibtex [.bibtexml] c02Db (by decide +kernel)
+  · obtain ⟨d', a, b, _⟩ := C02_lower Ser.witness h1 .yaml .bibtex [.bibtexml] c02Db (by decide +kernel)
+      (fun p _ => losslessOn_of_all h2 h3 p.1 p.2)
     exact ⟨d', a, b⟩
 
 /-! ### 8. repr / eval -/
